@@ -67,6 +67,10 @@ fn fmt_op_list(l: &[Operation]) -> String {
     s
 }
 
+pub fn parse_old_map_pub(tok: &str) -> Option<TaskMap> {
+    parse_old_map(tok)
+}
+
 fn parse_old_map(tok: &str) -> Option<TaskMap> {
     let inner = tok.strip_prefix('{')?.strip_suffix('}')?;
     let mut m = TaskMap::new();
